@@ -109,16 +109,17 @@ func (srv *BfeServer) serverDataConfReload(hostFile, vipFile, routeFile, cluster
 		return err
 	}
 
+	// Publish the new conf and push what the balancers copy from it in one critical
+	// section: concurrent reloads are serialized, and a request never gets a snapshot
+	// whose gslb basic conf has not reached the balancers yet.
 	srv.confLock.Lock()
 	srv.ServerConf = newServerConf
-	srv.confLock.Unlock()
-
-	srv.ReverseProxy.setTransports(srv.ServerConf.ClusterTable.ClusterMap())
-
+	srv.ReverseProxy.setTransports(newServerConf.ClusterTable.ClusterMap())
 	// set gslb basic
 	srv.balTable.SetGslbBasic(newServerConf.ClusterTable)
 	// set slow_start config
 	srv.balTable.SetSlowStart(newServerConf.ClusterTable)
+	srv.confLock.Unlock()
 
 	return nil
 }
@@ -150,13 +151,14 @@ func (srv *BfeServer) gslbDataConfReload(gslbFile, clusterTableFile string) erro
 		return err
 	}
 
-	// set gslb basic conf
+	// set gslb basic conf (under confLock: a concurrent server data conf reload
+	// must not be overwritten with the conf it has just replaced)
 	srv.confLock.Lock()
 	serverConf := srv.ServerConf
-	srv.confLock.Unlock()
 	srv.balTable.SetGslbBasic(serverConf.ClusterTable)
 	// set slow_start config
 	srv.balTable.SetSlowStart(serverConf.ClusterTable)
+	srv.confLock.Unlock()
 
 	return nil
 }
